@@ -72,6 +72,9 @@ def run(ctx):
             require_actions=["ScheduleRun", "OnDone", "Probe", "UnlockF", "SendDoneF"])
     ctx.tlc("socket", "DirectAddrUpdate", cfg="DirectAddrUpdate_AsWritten.cfg", mode="mc", constants=mc,
             expect_violation="NoStuckWant")
+    # growth: the required design with relay-map changes (a run on an empty map returns early) and shutdown
+    ctx.tlc("socket", "DirectAddrUpdate", cfg="DirectAddrUpdate_FixedMap.cfg", mode="mc", constants=dict(MaxReq=ctx.pick(4, 6)),
+            require_actions=["ScheduleRun", "MapChange", "Close", "OnDone", "Probe", "UnlockF", "SendDoneF"])
     res = ctx.tlc("socket", "DirectAddrUpdate", cfg="DirectAddrUpdate_Gen.cfg", mode="gen",
                   constants=dict(MaxReq=ctx.pick(2, 3)),
                   require_actions=["ScheduleRun", "OnDone", "Probe", "SendDoneA", "UnlockA"])
@@ -79,19 +82,20 @@ def run(ctx):
     if not words:
         raise ToolError("DirectAddrUpdate_Gen produced no words")
     if not ctx.quick:
-        # the same words again in another order (state carried over between words differs), seeded
+        # all words with <= 2 requests, plus a seeded sample of the 328 words with 3 requests (each word costs ~4 s of
+        # real net reports and settle time)
         import random
-        rnd = random.Random(ctx.seed)
-        extra = list(words)
-        rnd.shuffle(extra)
-        words = words + extra
+        small = [w for w in words if w["word"].count("req") <= 2]
+        big = [w for w in words if w["word"].count("req") > 2]
+        random.Random(ctx.seed).shuffle(big)
+        words = small + big[:120]
     outs = run_harness(ctx, words, "g")
     accepted = judge(ctx, words, outs, "g")
     binding_selftest(ctx, accepted)
     ctx.cov["rule"] = ("every complete word of req/probe/send_done/on_done/unlock of the pinned structure with <= MaxReq update "
                        "requests (exhaustive), each driven on a real endpoint; a word is non-trivial when a request is made "
                        "while a run is in flight")
-    ctx.cov["exhaustive"] = True
+    ctx.cov["exhaustive"] = ctx.quick
     ctx.assume("no other source of update requests (link change, port mapping change, periodic timer) fires within a word; "
                "the relay server and the endpoint run on 127.0.0.1")
 
